@@ -261,6 +261,8 @@ def gen_problem(rng, njobs=None, metric=None, nlocs=None, tight=None, multi=True
     else:
         feats3 = [f for f in FEATURES3 if f in features]
     mats = add_routing_features(frng3, problem, matrix, feats3) if feats3 else None
+    if not mats:
+        feats3 = []
     return {'problem': problem, 'matrices': mats or [matrix],
             'meta': {'n': n, 'metric': bool(metric), 'tight': bool(tight), 'njobs': njobs, 'features': feats + feats2 + feats3}}
 
@@ -491,7 +493,7 @@ def add_features(frng, problem, matrix, feats, tight=False):
                     err[i * n + j] = frng.choice([1, 1, 2, 7])
                     if style == 1:                      # symmetric
                         err[j * n + i] = err[i * n + j]
-        if not any(err):
+        if not any(err) and pairs:                      # (a problem with a single location has no pair)
             i, j = frng.choice(pairs)
             err[i * n + j] = 1
         matrix['errorCodes'] = err
@@ -982,7 +984,9 @@ def derive_relations(rng, p, s):
     for t in s.get('tours') or []:
         if not rng.chance(3, 4):
             continue
-        mids = [(a['type'], a['jobId']) for st in t['stops'] for a in st['activities'] if a['type'] not in ('departure', 'arrival')]
+        full = [(a['type'], a['jobId'], (a.get('location') or st['location'])['index'])
+                for st in t['stops'] for a in st['activities'] if a['type'] not in ('departure', 'arrival')]
+        mids = [(typ, jid) for typ, jid, _ in full]
 
         def eligible(jid):
             j = jobs.get(jid)
@@ -991,9 +995,10 @@ def derive_relations(rng, p, s):
             ts = tasks_of(j)
             if any(len(tk['places']) != 1 or len(tk['places'][0].get('times') or []) > 1 for _, tk in ts):
                 return False
-            # all tasks in this tour, visited in task order
-            seen = [typ for typ, x in mids if x == jid]
-            return seen == [kindname[k] for k, _ in ts]
+            # all tasks in this tour, and the k-th visited activity of the job IS its k-th task (kind and location: the k-th
+            # occurrence of the id in a relation stands for the k-th task, factories.rs)
+            seen = [(typ, loc) for typ, x, loc in full if x == jid]
+            return seen == [(kindname[k], tk['places'][0]['location']['index']) for k, tk in ts]
         ok = [jid for _, jid in mids if eligible(jid)]
         if not ok:
             continue
@@ -1010,14 +1015,18 @@ def derive_relations(rng, p, s):
                         wins.append((i, j))
             if not wins:
                 continue
-            i, j = rng.choice(wins)
+            # half of the strict relations are anchored when the tour offers a block that opens / closes it
+            mode = rng.choice(['free', 'free', 'departure', 'arrival'])
+            anchored = [w for w in wins if (mode == 'departure' and w[0] == 0) or (mode == 'arrival' and has_end and w[1] == len(mids))]
+            i, j = rng.choice(anchored or wins)
             lst_ = [x for _, x in mids[i:j]]
-            if i == 0 and rng.chance(1, 2):
+            if i == 0 and (mode == 'departure' or rng.chance(1, 3)):
                 lst_ = ['departure'] + lst_
-            if j == len(mids) and has_end and rng.chance(1, 2):
+            if j == len(mids) and has_end and (mode == 'arrival' or rng.chance(1, 3)):
                 lst_ = lst_ + ['arrival']
         else:
-            chosen = set(rng.shuffle(sorted(set(ok)))[:rng.range(1, 3)])
+            # a sequence relation of one job has no order to keep: two or three jobs when the tour has them
+            chosen = set(rng.shuffle(sorted(set(ok)))[:rng.range(2 if typ == 'sequence' else 1, 3)])
             lst_ = [x for _, x in mids if x in chosen]
             if rng.chance(1, 6):
                 lst_ = ['departure'] + lst_          # no rule is attached to it for any / sequence: exercises the reader only
